@@ -79,12 +79,24 @@ def gen_history(rng, model_comparable):
                     if key == state_key(cur[hs]):
                         ops.append(tok)
                         continue
+                sr = wlgen.sep_recipe(o["sep"])
+                if sr is not None and sr.live_families() and o["length"] >= 2 and rng.random() < 0.25:
+                    words = wlgen.make_tape(rng, wlgen.py_size(o["list"]), o["length"], o["sep"], o["cap"], "sepfail", chargen.DEFAULT_BUDGET)
+                    tok = "gen %d %s" % (h, core.src_tokens(core.flat_tape(words)))
+                    ops.append(tok)
+                    continue
                 words = wlgen.make_tape(rng, wlgen.py_size(o["list"]), o["length"], o["sep"], o["cap"], rng.choice(["random", "first", "last"]))
                 tok = "gen %d %s" % (h, core.src_tokens(core.flat_tape(words)))
                 ops.append(tok)
                 saved.append((h, state_key(o), tok))
             else:
-                words = wlgen.draws_for_sep(rng, o["sep"]) + [1, 2, 3]
+                sr = wlgen.sep_recipe(o["sep"])
+                if sr is not None and sr.live_families() and rng.random() < 0.4:
+                    # a call during which the separator function FAILS (every one of its 200 attempts misses a requirement):
+                    # what it reported then must not stick to it
+                    words = wlgen.draws_for_sep(rng, o["sep"], fail_attempts=chargen.DEFAULT_BUDGET[0]) + [1, 2, 3]
+                else:
+                    words = wlgen.draws_for_sep(rng, o["sep"]) + [1, 2, 3]
                 ops.append("ent %d %s" % (h, core.src_tokens(core.flat_tape(words))))
     titles = sorted(set(w for o in objs if o["kind"] == "wl" for w in o["list"]))
     tl = "0" if not titles or not model_comparable else "%d,%s" % (len(titles), ",".join("%s>%s" % (core.hx(w), core.hx(w.capitalize())) for w in titles))
